@@ -9,6 +9,7 @@ package c13
 import (
 	"errors"
 	"fmt"
+	"math"
 	"sort"
 	"strings"
 
@@ -16,7 +17,6 @@ import (
 
 	"github.com/NVIDIA/KAI-scheduler/pkg/scheduler/api/common_info"
 	"github.com/NVIDIA/KAI-scheduler/pkg/scheduler/api/eviction_info"
-	"github.com/NVIDIA/KAI-scheduler/pkg/scheduler/api/node_info"
 	"github.com/NVIDIA/KAI-scheduler/pkg/scheduler/api/pod_info"
 	"github.com/NVIDIA/KAI-scheduler/pkg/scheduler/api/pod_status"
 	"github.com/NVIDIA/KAI-scheduler/pkg/scheduler/api/podgroup_info"
@@ -188,8 +188,19 @@ func exact(f float64) int64 {
 	return i
 }
 
+// milli converts a GPU quantity to thousandths; GPU portions are two-decimal numbers, so the product is integral up to
+// float noise (anything further away is refused).
+func milli(g float64) int64 {
+	x := g * 1000
+	r := math.Round(x)
+	if math.Abs(x-r) > 1e-6 {
+		panic(fmt.Sprintf("GPU quantity %v is not a multiple of 0.001", g))
+	}
+	return int64(r)
+}
+
 func res3(cpu, mem, gpus float64) string {
-	return core.Res{Cpu: exact(cpu), Mem: exact(mem), Gpu: exact(gpus * 1000)}.Term()
+	return core.Res{Cpu: exact(cpu), Mem: exact(mem), Gpu: milli(gpus)}.Term()
 }
 
 var statuses = []pod_status.PodStatus{pod_status.Pending, pod_status.Gated, pod_status.Allocated, pod_status.Pipelined,
@@ -274,28 +285,23 @@ func (w *world) fullDumpTerm(d dump) string {
 	return fmt.Sprintf("(mkOD %s %s %s %s)", amap(ns), d.pods, d.jobs, d.queues)
 }
 
-// anyGpuNode is used to evaluate per-device memory / accepted resources of pods that are on no node yet.
-func (w *world) scratchNode() *node_info.NodeInfo {
-	best := w.c.Nodes[0]
-	for _, n := range w.c.Nodes {
-		if n.Gpus > best.Gpus {
-			best = n
+// perNode evaluates, with the real code, what NodeInfo.AddTask would make of the pod on each node of the
+// cluster: the memory it takes on a device there and its accepted resources (queue charge).
+func (w *world) perNode(t *pod_info.PodInfo) (gmem map[string]int64, acc map[string][3]float64) {
+	gmem, acc = map[string]int64{}, map[string][3]float64{}
+	for _, ns := range w.c.Nodes {
+		ni := core.MkNode(ns, w.b.VM)
+		c := t.Clone()
+		c.Status = pod_status.Allocated
+		if c.IsFractionCandidate() {
+			c.GPUGroups = nil
+			gmem[ns.Name] = ni.GetResourceGpuMemory(c.ResReq)
 		}
+		_ = ni.AddTask(c)
+		qc := putils.QuantifyResourceRequirements(c.AcceptedResource)
+		acc[ns.Name] = [3]float64{qc[rs.CpuResource], qc[rs.MemoryResource], qc[rs.GpuResource]}
 	}
-	return core.MkNode(best, w.b.VM)
-}
-
-func (w *world) accepted(t *pod_info.PodInfo) *resource_info.ResourceRequirements {
-	if t.AcceptedResource != nil && pod_status.IsActiveUsedStatus(t.Status) {
-		return t.AcceptedResource
-	}
-	c := t.Clone()
-	c.Status = pod_status.Allocated
-	if c.IsFractionCandidate() {
-		c.GPUGroups = nil
-	}
-	_ = w.scratchNode().AddTask(c)
-	return c.AcceptedResource
+	return
 }
 
 // initTerm renders the model's initial session.
@@ -309,7 +315,6 @@ func (w *world) initTerm() string {
 		}
 		ns = append(ns, kv{w.ids.Of("n:" + name), core.NodeFullTerm(w.ids, ni, amap(cp))})
 	}
-	scratch := w.scratchNode()
 	type usage struct{ a, np [3]float64 }
 	use := map[string]*usage{}
 	for _, q := range w.queueNames() {
@@ -319,21 +324,32 @@ func (w *world) initTerm() string {
 		job := w.b.Jobs[common_info.PodGroupID(j.Name)]
 		for _, p := range j.Pods {
 			t := w.pod(p.Name)
-			ni := scratch
-			if n, ok := w.b.Nodes[t.NodeName]; ok {
-				ni = n
+			gm, ac := w.perNode(t)
+			home := w.c.Nodes[0].Name
+			if _, ok := w.b.Nodes[t.NodeName]; ok {
+				home = t.NodeName
 			}
+			ni := w.b.Nodes[home]
 			pset := podgroup_info.DefaultSubGroup
 			if t.SubGroupName != "" {
 				pset = t.SubGroupName
 			}
 			jr := resource_info.EmptyResource()
 			jr.AddResourceRequirements(t.ResReq)
-			qc := putils.QuantifyResourceRequirements(w.accepted(t))
-			q3 := [3]float64{qc[rs.CpuResource], qc[rs.MemoryResource], qc[rs.GpuResource]}
-			ps = append(ps, kv{w.ids.Of("p:" + p.Name), fmt.Sprintf("(mkPod %s %s %s %s %s %s)", core.TaskTerm(w.ids, t, ni),
+			q3 := ac[home]
+			if t.AcceptedResource != nil && pod_status.IsActiveUsedStatus(t.Status) {
+				qc := putils.QuantifyResourceRequirements(t.AcceptedResource)
+				q3 = [3]float64{qc[rs.CpuResource], qc[rs.MemoryResource], qc[rs.GpuResource]}
+			}
+			var gt, qt []kv
+			for _, ns := range w.c.Nodes {
+				gt = append(gt, kv{w.ids.Of("n:" + ns.Name), u.Z(gm[ns.Name])})
+				a := ac[ns.Name]
+				qt = append(qt, kv{w.ids.Of("n:" + ns.Name), res3(a[0], a[1], a[2])})
+			}
+			ps = append(ps, kv{w.ids.Of("p:" + p.Name), fmt.Sprintf("(mkPod %s %s %s %s %s %s %s %s)", core.TaskTerm(w.ids, t, ni),
 				w.nodeOpt(t.NodeName), u.Bool(t.IsVirtualStatus), u.Pos(w.ids.Of("s:"+j.Name+"/"+pset)),
-				res3(jr.Cpu(), jr.Memory(), jr.GPUs()), res3(q3[0], q3[1], q3[2]))})
+				res3(jr.Cpu(), jr.Memory(), jr.GPUs()), res3(q3[0], q3[1], q3[2]), amap(gt), amap(qt))})
 			if pod_status.AllocatedStatus(t.Status) {
 				for q, ok := ssn.ClusterInfo.Queues[job.Queue]; ok; q, ok = ssn.ClusterInfo.Queues[q.ParentQueue] {
 					us := use[string(q.UID)]
